@@ -40,11 +40,13 @@
  *   L <name> <rev> <features>      ly_ctx_load_module(name, revision or NULL, features)
  *   I <name> <rev> <features>      lys_set_implemented(ly_ctx_get_module(name, revision), features)
  *   C                              ly_ctx_compile()
+ *   O <flags> / U <flags>          ly_ctx_set_options / ly_ctx_unset_options; flags = sum of 1 LY_CTX_EXPLICIT_COMPILE,
+ *                                  2 LY_CTX_ENABLE_IMP_FEATURES, 4 LY_CTX_REF_IMPLEMENTED, 8 LY_CTX_ALL_IMPLEMENTED, 16 LY_CTX_SET_PRIV_PARSED
  *   D <name>                       (ctxo only) parse a data tree of the implemented module <name> and keep it
  *   features: `~` NULL, `-` empty array, `*` all, or comma list
  *
  * Output: one segment per op, joined by " | ":
- *   <ok|E|nomod>;cc<+|=>;<module> <module> ...;L:<latest rev per name a..h>;M:<implemented rev per name>;hash=<ok|DIFF>
+ *   <ok|E|nomod>;cc<+|=>;<module> <module> ...;L:<latest rev per name a..h>;M:<implemented rev per name>;hash=<ok|DIFF>;O:<options>
  *   <module> = <name><rev><I|i><latest_revision flags, hex digit><T|t>{f+,g-}c=<-|[leaf,leaf]>r<=|+|0>
  *     I implemented, T to_compile, c = names of the x_ / y leaves of the compiled tree (the features it was compiled
  *     against), r: compiled tree is the same object as before the op (=), a new one (+), absent (0)
@@ -538,6 +540,7 @@ imp_clb(const char *mod_name, const char *mod_rev, const char *submod_name, cons
 
 /* ---------- observation ---------- */
 static int rtag;        /* address used as the tag of `base` leaves (same compiled object as before the op) */
+static int no_r;        /* the op changed options: LY_CTX_SET_PRIV_PARSED overwrites / clears the priv pointers, `r.` is printed */
 
 static int
 rev_of_mod(const struct lys_module *m)
@@ -654,7 +657,7 @@ print_obs(struct ly_ctx *ctx, struct sbuf *o, int white)
         }
         if (white) {
             n = first_node(m);
-            sb_fmt(o, "r%c", !n ? '0' : ((n->priv == &rtag) ? '=' : '+'));
+            sb_fmt(o, "r%c", no_r ? '.' : (!n ? '0' : ((n->priv == &rtag) ? '=' : '+')));
         }
     }
     sb_fmt(o, ";L:");
@@ -678,6 +681,13 @@ print_obs(struct ly_ctx *ctx, struct sbuf *o, int white)
         }
     }
     sb_fmt(o, ";hash=%s", (ly_ctx_get_modules_hash(ctx) == hash_as_coded(ctx)) ? "ok" : "DIFF");
+    {
+        uint16_t op = ly_ctx_get_options(ctx);
+
+        sb_fmt(o, ";O:%d", ((op & LY_CTX_EXPLICIT_COMPILE) ? 1 : 0) | ((op & LY_CTX_ENABLE_IMP_FEATURES) ? 2 : 0) |
+                ((op & LY_CTX_REF_IMPLEMENTED) ? 4 : 0) | ((op & LY_CTX_ALL_IMPLEMENTED) ? 8 : 0) |
+                ((op & LY_CTX_SET_PRIV_PARSED) ? 16 : 0));
+    }
 }
 
 /* ---------- operations ---------- */
@@ -836,6 +846,7 @@ run_script(struct vcase *c, int shadow)
 
         tag_all(ctx);
         cc0 = ly_ctx_get_change_count(ctx);
+        no_r = (c->f[f][0] == 'O') || (c->f[f][0] == 'U');
         rc = do_op(ctx, c->f[f]);
         cc1 = ly_ctx_get_change_count(ctx);
         if (rc == 3) {
